@@ -182,6 +182,8 @@ pub enum Binding {
     /// default binding, signed and validated without trust anchors: the signing credential is
     /// logged as untrusted (a tolerated failure) and the state is Valid instead of Trusted
     NoTrust,
+    /// an update manifest (BuilderIntent::Update) over a parent signed with the default binding
+    Update,
 }
 
 pub fn binding_overlay(b: Binding) -> Value {
@@ -189,6 +191,7 @@ pub fn binding_overlay(b: Binding) -> Value {
         Binding::Default => json!({}),
         Binding::Box => json!({ "core": { "prefer_compress_manifests": true } }),
         Binding::Merkle | Binding::MerkleAligned => json!({ "core": { "merkle_tree_chunk_size_in_kb": 1 } }),
+        Binding::Update => json!({}),
         Binding::NoTrust => json!({ "trust": { "trust_anchors": null, "trust_config": null, "user_anchors": null } }),
     }
 }
